@@ -2044,3 +2044,233 @@ func runR109(c *Ctx) {
 		})
 	}
 }
+
+// ---- R111: which column names are refused as quoted ----
+
+func init() {
+	register(&Rule{ID: "R111", Name: "QUOTED-NAME", Floor: 30,
+		Text: "strings.isQuoted is evaluated (E5) over all 32 valuations of (len(s) > 2, s starts with ', s ends with ', s starts with \", s ends with \"): it is true exactly for names longer than two bytes that carry the same quote character at both ends. CheckName refuses exactly those (plus empty names and a leading $), so a legal name such as `ab'` or `''` is never rejected and a quoted one never accepted",
+		Run:  runR111})
+	register(&Rule{ID: "R113", Name: "LIST-NORMALISED", Floor: 2,
+		Text: "in the column packages, wherever a comparatee is matched against the type []string (the value list of `in`), the value switched on is the result of strings.InterfaceSliceToStringSlice applied to the comparatee: a list written as []interface{}{\"a\", \"b\"} (the form JSON-decoded filters arrive in) is accepted by string and enum columns alike",
+		Run:  runR113})
+}
+
+func runR111(c *Ctx) {
+	p := c.P
+	fn := p.Func("internal/strings", "isQuoted")
+	if fn == nil || len(fn.Params) != 1 {
+		c.undecided("internal/strings.isQuoted", "-", "not found")
+		return
+	}
+	for w := 0; w < 32; w++ {
+		long, ps, ss, pd, sd := w&1 != 0, w&2 != 0, w&4 != 0, w&8 != 0, w&16 != 0
+		key := fmt.Sprintf("internal/strings.isQuoted|world long=%v sqPrefix=%v sqSuffix=%v dqPrefix=%v dqSuffix=%v", long, ps, ss, pd, sd)
+		pe := &pathExec{fn: fn}
+		odd := ""
+		atom := func(x ssa.Value) (bool, bool) {
+			switch t := x.(type) {
+			case *ssa.BinOp:
+				if call, ok := t.X.(*ssa.Call); ok && builtinName(call) == "len" {
+					k, isK := constInt(t.Y)
+					switch {
+					case isK && k == 2 && t.Op == token.GTR, isK && k == 3 && t.Op == token.GEQ:
+						return long, true
+					case isK && k == 2 && t.Op == token.LEQ, isK && k == 3 && t.Op == token.LSS:
+						return !long, true
+					}
+					odd = fmt.Sprintf("the length is tested as `len(s) %s %s`, not `len(s) > 2`", t.Op, describe(t.Y))
+				}
+			case *ssa.Call:
+				o := calleeObj(t)
+				isP, isS := isFuncNamed(o, "strings", "", "HasPrefix"), isFuncNamed(o, "strings", "", "HasSuffix")
+				if isP || isS {
+					q, ok := constString(t.Call.Args[1])
+					if !ok {
+						return false, false
+					}
+					switch {
+					case q == "'" && isP:
+						return ps, true
+					case q == "'" && isS:
+						return ss, true
+					case q == `"` && isP:
+						return pd, true
+					case q == `"` && isS:
+						return sd, true
+					}
+				}
+			}
+			return false, false
+		}
+		pe.oracle = func(pe *pathExec, cond ssa.Value) (bool, bool) { return pe.evalBool(cond, atom) }
+		end, why := pe.run()
+		ret, ok := end.(*ssa.Return)
+		if !ok {
+			if odd != "" {
+				c.bad(key, p.pos(fn.Pos()), odd)
+			} else {
+				c.undecided(key, p.pos(fn.Pos()), "cannot evaluate: "+why)
+			}
+			continue
+		}
+		got, known := pe.evalBool(ret.Results[0], atom)
+		want := long && (ps && ss || pd && sd)
+		switch {
+		case odd != "":
+			c.bad(key, p.instrPos(ret), odd)
+		case !known:
+			c.undecided(key, p.instrPos(ret), "result not decided by the world")
+		case got == want:
+			c.okTrivial(key, p.instrPos(ret), fmt.Sprintf("returns %v", got))
+		default:
+			c.bad(key, p.instrPos(ret), fmt.Sprintf("returns %v; a name is quoted exactly when it is longer than two bytes and starts and ends with the same quote character", got))
+		}
+	}
+}
+
+func runR113(c *Ctx) {
+	p := c.P
+	for _, cp := range columnPkgs {
+		for _, fn := range p.FuncsIn(cp) {
+			eachInstr(fn, func(in ssa.Instruction) {
+				ta, ok := in.(*ssa.TypeAssert)
+				if !ok {
+					return
+				}
+				sl, ok := ta.AssertedType.Underlying().(*types.Slice)
+				if !ok {
+					return
+				}
+				if b, ok := sl.Elem().Underlying().(*types.Basic); !ok || b.Kind() != types.String {
+					return
+				}
+				key := fname(fn) + "|value list"
+				call, ok := rootValue(ta.X).(*ssa.Call)
+				if ok && isFuncNamed(calleeObj(call), rel("internal/strings"), "", "InterfaceSliceToStringSlice") {
+					c.ok(key, p.instrPos(ta), "the comparatee is normalised before it is matched against []string")
+				} else {
+					c.bad(key, p.instrPos(ta), "the comparatee is matched against []string without passing through InterfaceSliceToStringSlice: a []interface{} list of strings is rejected by this column type while the others accept it")
+				}
+			})
+		}
+	}
+}
+
+// ---- R112: decimal rounding to a precision, by definition ----
+
+func init() {
+	register(&Rule{ID: "R112", Name: "FIXED-DEF", Floor: 2,
+		Text: "internal/math/float.Fixed(x, p) is round(x * 10^p) / 10^p: the scale is math.Pow with base the constant 10 and exponent the precision, the value is multiplied by the scale before rounding and divided by the same scale after; rounding is to the nearest integer with halves away from zero - either math.Round or the module's Round, which is int(x + math.Copysign(0.5, x)). ReadSQL's Precision option relies on it",
+		Run:  runR112})
+}
+
+func runR112(c *Ctx) {
+	p := c.P
+	fixed := p.Func("internal/math/float", "Fixed")
+	if fixed == nil || len(fixed.Params) != 2 {
+		c.undecided("internal/math/float.Fixed", "-", "not found")
+		return
+	}
+	strip := func(v ssa.Value) ssa.Value {
+		for {
+			cv, ok := v.(*ssa.Convert)
+			if !ok {
+				return v
+			}
+			v = cv.X
+		}
+	}
+	isCallTo := func(v ssa.Value, pkg, name string) *ssa.Call {
+		call, ok := strip(v).(*ssa.Call)
+		if ok && isFuncNamed(calleeObj(call), pkg, "", name) {
+			return call
+		}
+		return nil
+	}
+	key := "internal/math/float.Fixed|definition"
+	var ret *ssa.Return
+	eachInstr(fixed, func(in ssa.Instruction) {
+		if r, ok := in.(*ssa.Return); ok {
+			ret = r
+		}
+	})
+	bad := ""
+	var roundFn *ssa.Function
+	func() {
+		div, ok := strip(ret.Results[0]).(*ssa.BinOp)
+		if !ok || div.Op != token.QUO {
+			bad = "the result is not a quotient"
+			return
+		}
+		scale := isCallTo(div.Y, "math", "Pow")
+		if scale == nil {
+			bad = "the divisor is not the scale math.Pow(10, precision)"
+			return
+		}
+		if f, ok := scale.Call.Args[0].(*ssa.Const); !ok || f.Value == nil || f.Value.ExactString() != "10" {
+			bad = "the base of the scale is " + describe(scale.Call.Args[0]) + ", not 10"
+			return
+		}
+		if strip(scale.Call.Args[1]) != ssa.Value(fixed.Params[1]) {
+			bad = "the exponent of the scale is not the precision"
+			return
+		}
+		// numerator: round(x * scale)
+		num := strip(div.X)
+		var arg ssa.Value
+		if call, ok := num.(*ssa.Call); ok {
+			if isFuncNamed(calleeObj(call), "math", "", "Round") {
+				arg = call.Call.Args[0]
+			} else if callee := call.Call.StaticCallee(); callee != nil && callee.Pkg == fixed.Pkg {
+				roundFn = callee
+				arg = call.Call.Args[0]
+			}
+		}
+		if arg == nil {
+			bad = "the dividend is not the rounded product"
+			return
+		}
+		mul, ok := strip(arg).(*ssa.BinOp)
+		if !ok || mul.Op != token.MUL {
+			bad = "the value is not multiplied by the scale before rounding (" + describe(arg) + ")"
+			return
+		}
+		x, y := strip(mul.X), strip(mul.Y)
+		if !(x == ssa.Value(fixed.Params[0]) && y == ssa.Value(scale) || y == ssa.Value(fixed.Params[0]) && x == ssa.Value(scale)) {
+			bad = "the product is not value * scale"
+		}
+	}()
+	if bad == "" {
+		c.ok(key, p.instrPos(ret), "round(x * 10^p) / 10^p")
+	} else {
+		c.bad(key, p.instrPos(ret), bad)
+	}
+	if roundFn != nil {
+		key := fname(roundFn) + "|definition"
+		var r *ssa.Return
+		eachInstr(roundFn, func(in ssa.Instruction) {
+			if x, ok := in.(*ssa.Return); ok {
+				r = x
+			}
+		})
+		okDef := false
+		if add, ok := strip(r.Results[0]).(*ssa.BinOp); ok && add.Op == token.ADD {
+			for _, pair := range [][2]ssa.Value{{add.X, add.Y}, {add.Y, add.X}} {
+				if strip(pair[0]) != ssa.Value(roundFn.Params[0]) {
+					continue
+				}
+				if cs := isCallTo(pair[1], "math", "Copysign"); cs != nil {
+					if f, ok := cs.Call.Args[0].(*ssa.Const); ok && f.Value != nil && f.Value.ExactString() == "1/2" && strip(cs.Call.Args[1]) == ssa.Value(roundFn.Params[0]) {
+						okDef = true
+					}
+				}
+			}
+		}
+		if okDef {
+			c.ok(key, p.instrPos(r), "int(x + copysign(0.5, x)): nearest integer, halves away from zero")
+		} else {
+			c.bad(key, p.instrPos(r), "the rounding helper is not int(x + math.Copysign(0.5, x)) ("+describe(r.Results[0])+"): values are rounded in the wrong direction")
+		}
+	}
+}
